@@ -4,13 +4,14 @@ CONSTANTS
   Gaps <- GapsFixed2
   T = 10
   D = 1
-  MaxEvents = 3
+  MaxEvents = 2
   MaxFails = 1
-  Backoff = TRUE
-  Closed = TRUE
+  Backoff = FALSE
+  Closed = FALSE
   ObserveCb = TRUE
-  TrackQuiet = TRUE
+  TrackQuiet = FALSE
   UnitMs = 1000
 INVARIANTS TypeOK Converged LearnsLive ForgetsDead SelfListed PeriodRestored NoDuplicateAddr ChannelSane
 PROPERTIES CallbackIffChange NoResurrection
+ACTION_CONSTRAINT Dump
 VIEW View
